@@ -102,9 +102,9 @@ func c11HistoricStrict(c *Ctx) {
 		return
 	}
 	name := core.FuncName(fn)
-	skip := an.ParamNamed(fn, "skipUnreadable")
+	skip := an.BoolParamUnderError(fn, "skipUnreadable")
 	if skip == nil {
-		c.R.Errorf("mergeRoots has no parameter skipUnreadable")
+		c.R.Errorf("mergeRoots has no single bool parameter (skipUnreadable)")
 		return
 	}
 	// loop header = block of the range-index phi that dominates the loadRootFromAny call
@@ -437,7 +437,9 @@ func c11CreatedStamp(c *Ctx) {
 				s = true
 			}
 		case ssa.CallInstruction:
-			if calleeLabel(x) == "emptyRoot" {
+			// the empty version's constructor, by role: a kv function that returns a crdt.Root
+			// (emptyRoot today)
+			if cal := x.Common().StaticCallee(); cal != nil && an.PkgPathOf(cal) == kvPkg && returnsCrdtRoot(cal) {
 				for _, a := range x.Common().Args {
 					if fromWhen(a) {
 						s = true
@@ -560,4 +562,13 @@ func constInt(v ssa.Value) (int64, bool) {
 		return 0, false
 	}
 	return k.Int64(), true
+}
+
+func returnsCrdtRoot(f *ssa.Function) bool {
+	res := f.Signature.Results()
+	if res.Len() != 1 {
+		return false
+	}
+	nt := an.NamedOf(res.At(0).Type())
+	return nt != nil && nt.Obj().Name() == "Root" && nt.Obj().Pkg() != nil && nt.Obj().Pkg().Path() == core.ModPath+"/kv/internal/crdt"
 }
